@@ -92,6 +92,8 @@ def ident_to_str(ident: str, allow_num: bool=False) -> str:
 # Binary operators that bind weaker than the prefix NOT
 # (see edb/edgeql/parser/grammar/precedence.py).
 _WEAKER_THAN_NOT = frozenset({'OR', 'AND', 'UNION', 'EXCEPT', 'INTERSECT'})
+# Operators that bind tighter than unary minus; `{` stands for a shape.
+_TIGHTER_THAN_UMINUS = frozenset({'^', '{'})
 
 
 def _prefix_swallows_op(node: qlast.Base, op: str) -> bool:
@@ -99,31 +101,36 @@ def _prefix_swallows_op(node: qlast.Base, op: str) -> bool:
 
     Prefix operators are printed without enclosing parentheses, so
     as the left operand of a binary operator that binds tighter, e.g.
-    `(-1) ^ 2` or `(NOT a) = b`, they have to be parenthesized.
+    `(-1) ^ 2` or `(NOT a) = b`, they have to be parenthesized.  The
+    same goes for the subject of a shape: `(<T>x) {a}`.
     """
     while True:
         if isinstance(node, qlast.UnaryOp):
             unary_op = str(node.op).upper()
             if unary_op == 'NOT':
                 return op not in _WEAKER_THAN_NOT
-            elif op == '^':
-                # Unary +, -, EXISTS and DISTINCT only bind weaker than ^.
+            elif op in _TIGHTER_THAN_UMINUS:
+                # Unary +, -, EXISTS and DISTINCT.
                 return True
             elif unary_op.isalnum():
                 # The operand is printed in parentheses.
                 return False
             node = node.operand
         elif isinstance(node, qlast.TypeOf):
-            if op == '^':
+            if op in _TIGHTER_THAN_UMINUS:
                 return True
             node = node.expr
-        elif isinstance(node, (qlast.TypeCast, qlast.DetachedExpr)):
+        elif isinstance(node, qlast.TypeCast):
+            if op == '{':
+                return True
+            node = node.expr
+        elif isinstance(node, qlast.DetachedExpr):
             node = node.expr
         elif isinstance(node, qlast.Introspect):
             node = node.type
         elif isinstance(node, qlast.Constant):
             return (
-                op == '^'
+                op in _TIGHTER_THAN_UMINUS
                 and node.kind is not qlast.ConstantKind.STRING
                 and node.value.startswith('-')
             )
@@ -648,7 +655,7 @@ class EdgeQLSourceGenerator(codegen.SourceGenerator):
 
     def visit_Shape(self, node: qlast.Shape) -> None:
         if node.expr is not None:
-            self.visit(node.expr)
+            self._visit_left_operand(node.expr, '{')
             self.write(' ')
         self._visit_shape(node.elements)
 
